@@ -298,3 +298,89 @@ def vc_inplacereplace(H):
             pass
         return None
     H.run_paths(fuc, 'full+sparse+permuted-full', body)
+
+
+def vc_encode(H):
+    """encode / walker (recursive generator functions, interpreted with eager generators): for concrete subject trees with
+    opaque multivectors, walker(encode(tree, root=True)) must be the tree with
+      * every multivector replaced by {'mv': its values (a copy / a float64 buffer for ndarrays)} plus 'keys' unless its keys are
+        exactly the canonical full key tuple,
+      * an array-valued multivector expanded into the payloads of its elements (itermv order),
+      * a zero-argument callable replaced by the encoding of its value, lists and tuples keeping their nesting, other values kept.
+    Bounded in tree shapes (listed), unbounded in coefficient values."""
+    import types
+    fe = H.fn(GR, 'encode')
+    fw = H.fn(GR, 'walker')
+    canon = (0, 1, 2, 3)
+
+    def world(ctx):
+        alg = sym('algebra', attrs={'canon2bin': sym('c2b', attrs={'values': sym('values', callable_result=lambda i, m, a, k: canon)})})
+        alg.kvc_len = lambda: 4
+        MVc = sym('MultiVector')
+        nd = sym('ndarray')
+        np_ = sym('np', attrs={'ndarray': nd})
+
+        def mv(name, keys, kind='list', elements=None):
+            if kind == 'list':
+                vals = sym(f'{name}._values', attrs={'copy': sym('copy', callable_result=lambda i, m, a, k: ('COPY', name))})
+            else:
+                vals = sym(f'{name}._values', isinstance_of=('ndarray',), attrs={'tobytes': sym('tobytes', callable_result=lambda i, m, a, k: ('BYTES', name))})
+            o = sym(name, attrs={'algebra': alg, '_keys': tuple(keys), '_values': vals,
+                                 'shape': (len(keys),) if elements is None else (len(keys), len(elements)),
+                                 'itermv': sym('itermv', callable_result=lambda i, m, a, k: list(elements or []))},
+                    isinstance_of=('MultiVector',))
+            o.kvc_len = lambda: len(keys)
+            return o
+        return alg, MVc, np_, mv
+
+    def payload(name, keys, kind='list'):
+        d = {'mv': ('COPY', name) if kind == 'list' else ('BYTES', name)}
+        if tuple(keys) != canon:
+            d['keys'] = tuple(keys)
+        return d
+    scenarios = ['flat', 'nested', 'callable', 'array-valued', 'layouts']
+    for sc in scenarios:
+        def body(ctx, sc=sc):
+            alg, MVc, np_, mv = world(ctx)
+            interp = Interp(ctx, source_name=GR)
+            env = {'MultiVector': MVc, 'np': np_, 'Callable': sym('Callable'), 'GeneratorType': types.GeneratorType, 'TREE_TYPES': (list, tuple)}
+            walker = H.closure(interp, fw, env)
+            env['walker'] = walker
+            encode = H.closure(interp, fe, env)
+            env['encode'] = encode
+            a, b = mv('a', (1, 2)), mv('b', (3,))
+            if sc == 'flat':
+                tree = [0xff0000, a, 'label', b]
+                exp = [0xff0000, payload('a', (1, 2)), 'label', payload('b', (3,))]
+            elif sc == 'nested':
+                tree = [a, [b, (a, 'x')], (b,)]
+                exp = [payload('a', (1, 2)), [payload('b', (3,)), [payload('a', (1, 2)), 'x']], [payload('b', (3,))]]
+            elif sc == 'callable':
+                f1 = sym('thunk', isinstance_of=('Callable',), callable_result=lambda i, m, x, k: [a, b])
+                f2 = sym('thunk2', isinstance_of=('Callable',), callable_result=lambda i, m, x, k: a)
+                tree = [f1, 7, f2]
+                exp = [[payload('a', (1, 2)), payload('b', (3,))], 7, payload('a', (1, 2))]
+            elif sc == 'array-valued':
+                e0, e1 = mv('c[0]', (1, 2)), mv('c[1]', (1, 2))
+                c = mv('c', (1, 2), elements=[e0, e1])
+                tree = [c, 'after']
+                exp = [payload('c[0]', (1, 2)), payload('c[1]', (1, 2)), 'after']
+            else:
+                full = mv('full', canon)
+                binary = mv('binary', (0, 1, 3, 2))
+                ndf = mv('ndfull', canon, kind='ndarray')
+                nds = mv('ndsparse', (2, 1), kind='ndarray')
+                tree = [full, binary, ndf, nds]
+                exp = [payload('full', canon), payload('binary', (0, 1, 3, 2)), payload('ndfull', canon, 'ndarray'), payload('ndsparse', (2, 1), 'ndarray')]
+            r = walker(encode(tree, root=True))
+
+            def norm(x):
+                if isinstance(x, (list, tuple)):
+                    return [norm(y) for y in x]
+                if isinstance(x, dict):
+                    return {k: norm(v) if k != 'keys' else tuple(v) for k, v in x.items()}
+                return x
+            ctx.oblige(f'encode/walker[{sc}]: payload == tree with multivectors replaced by their (values, keys) records', norm(r) == norm(exp),
+                       meta={'got': repr(norm(r))[:400], 'expected': repr(norm(exp))[:400]})
+            return r
+        H.run_paths(fe, sc, body)
